@@ -1629,6 +1629,9 @@ var shapeTargets = []shapeTarget{
 	{"internal/transfer", "nextChunkToSend", "sendFileState", "if-all", "sendfile_next_chunk"},
 	{"internal/transfer", "markChunkDone", "sendFileState", "if-all", "sendfile_mark_done"},
 	{"internal/transfer", "trySendEnd", "sendFileState", "if-all", "sendfile_try_end"},
+	{"internal/transfer", "beginVerify", "sendFileState", "body-stmts", "sendfile_begin_verify"},
+	{"internal/transfer", "SendManifestMultiStream", "", "if-cond-has:beginVerify", "send_begin_verify_call"},
+	{"internal/transfer", "SendManifestMultiStream", "", "assign:state.verifyPending", "send_verify_pending_sets"},
 	{"internal/app", "maybeStartTransfers", "SnapshotSender", "if-all", "admission_start"},
 	{"internal/app", "runTransfer", "SnapshotSender", "assign:current", "admission_slot_identity"},
 	{"internal/app", "handlePeerLeft", "SnapshotSender", "if-all", "admission_left"},
